@@ -578,3 +578,11 @@ func Msg(label string) []byte {
 	}
 	return out
 }
+
+// Hex prints a point (compressed), the identity by name.
+func Hex(p ref.Pt) string {
+	if p.Inf || p.X == nil || p.Y == nil {
+		return "identity"
+	}
+	return fmt.Sprintf("%x", p.Compressed())
+}
